@@ -4,6 +4,7 @@ import (
 	"go/ast"
 	"go/types"
 	"sort"
+	"strings"
 
 	"verif/mlbcheck/chk"
 )
@@ -26,6 +27,9 @@ func init() {
 			"behaviour of the three Session.Set implementations for duplicates (C14-C17).",
 		Run: runC05,
 		Mutants: []Mutant{
+			{Name: "last-node-selector-wins", File: "internal/config/config.go",
+				Old: "\t\tfor _, s := range labelSelectors {\n\t\t\tnodeLabels := labels.Set(node.Labels)\n\t\t\tif s.Matches(nodeLabels) {\n\t\t\t\tres[node.Name] = true\n\t\t\t\tcontinue OUTER\n\t\t\t}\n\t\t}\n\t}\n\treturn res, nil",
+				New: "\t\tselected := false\n\t\tfor _, s := range labelSelectors {\n\t\t\tnodeLabels := labels.Set(node.Labels)\n\t\t\tselected = s.Matches(nodeLabels)\n\t\t}\n\t\tif selected {\n\t\t\tres[node.Name] = true\n\t\t\tcontinue OUTER\n\t\t}\n\t}\n\treturn res, nil", Expect: "every-matching-node"},
 			{Name: "setconfig-success-when-pools-unchanged", File: "speaker/main.go",
 				Old: "\tc.config = cfg\n\n\treturn controllers.SyncStateReprocessAll",
 				New: "\tsame := c.config != nil && c.config.Pools == cfg.Pools\n\tc.config = cfg\n\tif same {\n\t\treturn controllers.SyncStateSuccess\n\t}\n\n\treturn controllers.SyncStateReprocessAll", Expect: "RESYNC"},
@@ -80,6 +84,9 @@ func runC05(p *chk.Prog, r *chk.Report) {
 	// a configuration change that closes sessions is followed by a full pass over the services, which is what
 	// recomputes the reported peers (RESYNC, shared with C09)
 	c09Resync(p, r)
+	// the nodes an advertisement is announced from are the nodes that any one of its selectors matches (SELECT, shared
+	// with C08): SetBalancer skips an advertisement whose Nodes leaves this node out
+	c08Select(p, r)
 }
 
 func c05Build(p *chk.Prog, r *chk.Report) {
@@ -268,9 +275,37 @@ func c05Build(p *chk.Prog, r *chk.Report) {
 	y.Check("SetBalancer:communities-sorted-before-store", st.Pos(), okSort, "", "the community list of a stored advertisement is in Go map iteration order (two evaluations of the same input differ; the sessions see spurious changes)")
 }
 
+// publishHost / publishRecord: where PUBLISH found the publishing loop when publishAds is folded into its caller, and
+// the per-peer record it fills (read by REPUBLISH in the same run).
+var (
+	publishHost              *chk.Fn
+	publishRecord            types.Object
+	publishRecordIsPrefixSet bool // the record holds the prefixes (A.Prefix.String()) of the published lists
+)
+
 func c05Publish(p *chk.Prog, r *chk.Report) {
+	publishHost, publishRecord, publishRecordIsPrefixSet = nil, nil, false
+
 	x := r.Rule("PUBLISH", "B path + E sibling", "in (*bgpController).publishAds: allAds receives every advertisement of every service; every peer with a live session (the only skip is peer.session == nil) gets peer.session.Set(adsForPeer(peer.cfg.Name, allAds)...) and adsSet[peer.cfg.Name] records the same list; a Set error is returned", 5)
-	f := need(x, p, "speaker", "bgpController", "publishAds")
+	f := p.LookupFunc("speaker", "bgpController", "publishAds")
+	if f == nil {
+		// folded into its caller: the method of bgpController that hands the lists to the sessions is judged in its place
+		var hosts []*chk.Fn
+		for _, cf := range p.FuncsIn("speaker") {
+			if rv := cf.Recv(); rv == nil || cf.Decl == nil || !strings.HasSuffix(rv.Type().String(), "speaker.bgpController") {
+				continue
+			}
+			if len(cf.Graph().FindPat("P.session.Set(ADS...)")) > 0 {
+				hosts = append(hosts, cf)
+			}
+		}
+		if len(hosts) == 1 {
+			f = hosts[0]
+			publishHost = f
+		} else {
+			f = need(x, p, "speaker", "bgpController", "publishAds")
+		}
+	}
 	adsInPlace := false
 	if f != nil {
 		g := f.Graph()
@@ -343,13 +378,42 @@ func c05Publish(p *chk.Prog, r *chk.Report) {
 				for _, e := range g.EdgesImplying(g.GErrNil(false, "P.session.Set(ETC)", chk.H("P", peer))) {
 					w := g.BranchAlways(e, func(n ast.Node) bool {
 						rt, ok := n.(*ast.ReturnStmt)
-						return ok && len(rt.Results) == 2 && !f.IsNilLit(rt.Results[1])
+						return ok && len(rt.Results) >= 1 && !f.IsNilLit(rt.Results[len(rt.Results)-1])
 					})
 					x.Check("publishAds:set-error-returned", posOf(w, f), !w.Found, "", "an error of Session.Set is swallowed")
 				}
 			}
 			rec := g.Find(f.IsAssignPat("M[P.cfg.Name]", "ADS", chk.H("P", peer), chk.H("ADS", ads)))
+			if len(rec) == 0 && len(sets) == 1 {
+				// what is recorded is derived from the list handed to the session: the set of its prefixes, one Insert of
+				// A.Prefix.String() for every element A of that list (no skip), into a set made in this iteration
+				for _, st := range g.Find(f.IsAssignPat("M[P.cfg.Name]", "V", chk.H("P", peer))) {
+					vid, isId := ast.Unparen(st.Node.(*ast.AssignStmt).Rhs[0]).(*ast.Ident)
+					if !isId {
+						continue
+					}
+					vdef, _ := g.DefOf(vid, st)
+					if vdef == nil || !isFreshContainer(f, vdef) || !chk.InBody(rs, g.FactSite(vdef).Top) {
+						continue
+					}
+					isV := f.IsObj(f.ObjOf(vid))
+					ins := g.FindPat("V.Insert(E)", chk.H("V", isV))
+					okIns := len(ins) == 1
+					for _, in := range ins {
+						lp, isLp := f.LoopOf(in.Node).(*ast.RangeStmt)
+						okIns = okIns && isLp && ads(lp.X) && f.MatchWith("A.Prefix.String()", in.Node.(*ast.CallExpr).Args[0], chk.H("A", rangeVal(f, lp))) != nil &&
+							!loopCanSkip(g, lp, func(n ast.Node) bool { return n == in.Top }) && !loopHasBreak(g, lp)
+					}
+					if okIns {
+						rec = append(rec, st)
+						publishRecordIsPrefixSet = true
+					}
+				}
+			}
 			x.Check("publishAds:record-matches-published", rs.Pos(), len(rec) == 1, "", "the recorded per-peer list is not the list handed to the session")
+			if len(rec) == 1 {
+				publishRecord = f.RootObj(rec[0].Node.(*ast.AssignStmt).Lhs[0])
+			}
 			if inPlaceFilter {
 				adsInPlace = true
 			}
@@ -533,6 +597,15 @@ func c05Republish(p *chk.Prog, r *chk.Report) {
 		pub := definedBy(g, "RECV.publishAds(ETC)")
 		ns := g.FindPat("RECV.notifyAdsChanged(A)", chk.H("A", pub))
 		ok := len(ns) == 1 && g.Dominated(ns[0], g.GErrNil(true, "RECV.publishAds(ETC)"))
+		if !ok && publishHost == ua && publishRecord != nil {
+			// the publishing loop is part of updateAds itself: what is handed on is the record it filled, after the loop over
+			// the peers ended (a failed Set has left the function by then: PUBLISH set-error-returned)
+			ns = g.FindPat("RECV.notifyAdsChanged(A)", chk.H("A", ua.IsObj(publishRecord)))
+			ok = len(ns) == 1
+			for _, rs := range ua.RangeLoops(recvFieldOrPassed(p, ua, "bgpController", "peers")) {
+				ok = ok && len(ns) == 1 && g.AfterLoop(ns[0], rs)
+			}
+		}
 		if ok {
 			w := g.MustPass(chk.Site{}, func(n ast.Node) bool {
 				rs, okk := n.(*ast.ReturnStmt)
@@ -892,6 +965,23 @@ func c05ReportKey(p *chk.Prog, r *chk.Report) {
 			for lp := f.LoopOf(nd); lp != nil; lp = f.LoopOf(lp) {
 				if rs, isR := lp.(*ast.RangeStmt); isR && rangeVal(f, rs)(b["A"]) {
 					good = true
+				}
+			}
+		}
+		if !good && publishRecordIsPrefixSet {
+			// the published lists arrive as sets of their prefixes (PUBLISH decided that each element is
+			// A.Prefix.String()): the key is an element of one of those sets
+			if kid, isId := ast.Unparen(ix.Index).(*ast.Ident); isId {
+				for lp := f.LoopOf(nd); lp != nil; lp = f.LoopOf(lp) {
+					inner, isR := lp.(*ast.RangeStmt)
+					if !isR || !rangeKey(f, inner)(kid) {
+						continue
+					}
+					for _, outer := range f.RangeLoops(isParamIdx(f, 0)) {
+						if chk.InBody(outer, inner) && rangeVal(f, outer)(inner.X) {
+							good = true
+						}
+					}
 				}
 			}
 		}
